@@ -109,9 +109,18 @@ Fixpoint ascii_blocks (fuel : nat) (blk : nat) (st : istate) : list bytes :=
            match o with [] => [] | _ => o :: ascii_blocks f blk st' end
   end.
 
+(* what the source hands out up to its first empty read: the loop of data_connection::send stops there and never
+   asks again, whatever the source would return later *)
+Fixpoint upto_empty (chunks : list bytes) : list bytes :=
+  match chunks with
+  | [] => []
+  | [] :: _ => []
+  | c :: rest => c :: upto_empty rest
+  end.
+
 Definition upload_blocks (t : ttype) (blk : nat) (chunks : list bytes) : list bytes :=
   match t with
-  | TBinary => chunks
+  | TBinary => upto_empty chunks
   | TAscii => ascii_blocks (S (2 * length (concat chunks))) blk (istart chunks)
   end.
 
